@@ -76,7 +76,7 @@ RULE = ('exhaustive: every string of length <= 3 (quick) / <= 4 (thorough) over 
         '1..8 over an 11-symbol alphabet with case pairs and digits. One case = one law instance checked '
         'against the reference model; non-trivial = the subject renders to a non-empty text (TEXT: always); '
         'distinct = enumeration index (exhaustive) or (law, arguments) (sampled).')
-BUDGET = {'quick': 20, 'thorough': 150}
+BUDGET = {'quick': 12, 'thorough': 150}
 EXHAUSTIVE = {'quick': False, 'thorough': False}
 ASSUMPTIONS = [
     'Excel is not available: "Excel rendering" of a number k/10^j in [1e-6, 1e6] is its positional decimal '
